@@ -302,5 +302,53 @@ def rule_d6(repo):
                           'a type variable (or variable) in the skipped position escapes the side condition: c :: bool, c = (!u::bool. !x::\'a. !y. x = y) is accepted')
 
 
+def rule_d7(repo):
+    """The side conditions of D1 must speak about variables the way the kernel does: a variable is a name with
+    a type (x::bool on the right is not the argument x::nat), and schematic variables / schematic type
+    variables - which get_vars / get_tvars do not list - could be instantiated at will in the defining
+    theorem (c = ?x gives true = false)."""
+    res = RuleResult('C11.D7', 'the free-variable condition compares variables with their types, and schematic variables and schematic type variables are refused', floor=3)
+    f = repo.func(ITEMS, 'Definition.parse')
+    cfg = cfg_of(f.node)
+    # accept = leaving the try body normally
+    tries = [n for n in ast.walk(f.node) if isinstance(n, ast.Try)]
+    need(tries, 'Definition.parse: try block not found')
+    body = tries[0].body
+    # (1) the sets compared for "rhs variables are lhs arguments" are built from the variables, not their names
+    subset = [c for st in body for c in ast.walk(st) if isinstance(c, ast.Call) and call_attr(c) == 'issubset']
+    need(subset, 'Definition.parse: rhs_vars.issubset(lhs_vars) not found')
+    flow = flow_of(f.node)
+    by_name = False
+    for c in subset:
+        for side in (c.func.value, c.args[0]):
+            if isinstance(side, ast.Name):
+                for kd, rhs in flow.defs.get(side.id, []):
+                    if kd == 'value' and any(isinstance(x, ast.Attribute) and x.attr == 'name' for x in ast.walk(rhs)):
+                        by_name = True
+    res.add('%s :: Definition.parse :: variables-with-types' % ITEMS, not by_name,
+            'the sets hold the variables themselves' if not by_name else
+            'the free variables of the right side are compared with the arguments by name only: c x = (x::bool) for c :: nat => bool is accepted, '
+            'and the defining theorem has a free variable that is not an argument', f.loc)
+    # (2) (3) tests on get_svars() / get_stvars() whose true side raises, on every path to acceptance
+    end = cfg.node_for(body[-1]) if body else None
+    for meth, what, ex in (('get_svars', 'schematic variables', 'c = ?x'), ('get_stvars', 'schematic type variables', "c = (!x::?'a. !y. x = y)")):
+        tests = [t for t in cfg.test_nodes() if isinstance(t.ast, ast.Call) and call_attr(t.ast) == meth and
+                 cfg.exit.id not in cfg.reach_from([b for b, l in t.succ if l == 'true'], skip_nodes=[n for n in cfg.nodes if n.kind == 'except'])]
+        # the raise inside the try goes to the handler, which records the error: "refused".  Accepting = reaching the end of the try body
+        last = [n for n in cfg.nodes if n.kind in ('stmt', 'test') and n.lineno == max(x.lineno for x in ast.walk(body[-1]) if hasattr(x, 'lineno'))]
+        ok = bool(tests)
+        if ok:
+            # every path from entry to the statement after the try that does not go through a handler passes the test's false side
+            handlers = [n for n in cfg.nodes if n.kind == 'except']
+            after_try = [n for n in cfg.nodes if n.kind in ('stmt', 'test') and n.lineno > (tries[0].end_lineno or 0)]
+            tgt = min(after_try, key=lambda n: n.lineno) if after_try else cfg.exit
+            ok = cfg.path_avoiding(tgt, skip_nodes=handlers + tests) is None
+        res.add('%s :: Definition.parse :: refuses(%s)' % (ITEMS, what), ok,
+                'a defining equation with %s is refused' % what if ok else
+                '%s in the defining equation are not refused (%s() is never consulted on the way to acceptance): %s is accepted, and its '
+                'defining theorem can be instantiated to contradictory instances' % (what.capitalize(), meth, ex), f.loc)
+    return res
+
+
 def rules(repo):
-    return [rule_d1(repo), rule_d2(repo), rule_d3(repo), rule_d4(repo), rule_d5(repo), rule_d6(repo)]
+    return [rule_d1(repo), rule_d2(repo), rule_d3(repo), rule_d4(repo), rule_d5(repo), rule_d6(repo), rule_d7(repo)]
